@@ -152,6 +152,28 @@ func (o *oracle) step(t int, r stepResult, obs []refObs) {
 		key = r.ckey
 	}
 	ret := r.m.r
+	for _, v := range r.strayClose {
+		// a destructor's effect outside the pool: the pool still counts references (at least the caller's)
+		if v != nil {
+			vi := o.info(v)
+			vi.destructed++
+			if o.tainted == "" {
+				n, _ := o.holdersOfKey(v.key)
+				o.fail("pooled-value-closed-by-client", fmt.Sprintf("config %d: during the set-up of its log on key %d the pooled writer %d was closed directly (not by the pool): the pool still counts references to it (%d held by configs, this call's included or in flight), later acquirers get a closed writer and the pool closes it again at the last release", t, key, v.id, n))
+			}
+		}
+	}
+	if r.op.kind == opLog && r.opDone && o.tainted == "" {
+		want := map[byte]bool{'g': false, 'b': true, 'e': true}[r.op.variant]
+		switch {
+		case ret.err && !ret.setupErr:
+			o.fail("client-log-setup-result", fmt.Sprintf("config %d: the writer of its log on key %d could not be opened but the set-up reported success", t, key))
+		case !ret.err && ret.setupErr != want:
+			o.fail("client-log-setup-result", fmt.Sprintf("config %d: set-up of a log (variant %c) on key %d returned error=%v", t, r.op.variant, key, ret.setupErr))
+		case !ret.err && ret.writerNil:
+			o.fail("client-log-setup-result", fmt.Sprintf("config %d: the log on key %d holds a reference to the pooled writer but ended up without it", t, key))
+		}
+	}
 	if r.op.kind == opOpen && r.opDone && o.tainted == "" {
 		// the client glue around LoadOrNew: (writer, isNew, err)
 		switch {
